@@ -304,8 +304,12 @@ def check_model(R, xml, tags, case, P):
     if m.nv == 0:
         P.count("skipped_nv0")
         return
-    prof = tags[0] if tags else "?"
+    prof = [t for t in tags if t in ("smooth", "constrained", "contact", "eqonly", "gate")]
+    prof = prof[0] if prof else "?"
     P.count("models")
+    P.case("model|%s|%s" % (prof, "+".join(case["parts"])), nontrivial=True,
+           sample={"tags": tags, "parts": case["parts"], "batch": case["batch"], "fns": case["fns"], "nv": int(m.nv),
+                   "nu": int(m.nu), "na": int(m.na), "nmocap": int(m.nmocap), "neq": int(m.neq)})
     d = mj.MjData(m)
     mjxrepo.random_state(R, rng, m, d)
     if "state" in case["parts"]:
